@@ -15,6 +15,7 @@ J gen_tasks(const std::string& prop, uint64_t run_seed, const std::string& tier)
   knobs.set("preempt", PRE[kn.below(7)]);
   knobs.set("stack", (uint64_t)1 << 20);
   knobs.set("protect", 1);
+  knobs.set("locale", kn.below(2));      // half of the runs under a process locale whose radix character is a comma
   plan.set("knobs", knobs);
   unsigned nt = (unsigned)(kn.chance(1, 5) ? kn.range(9, 16) : kn.range(2, 8));
   J tasks = J::arr();
@@ -43,6 +44,8 @@ void exec_tasks(const J& plan) {
   size_t n = jt.size(); if (n == 0) return; if (n > 16) n = 16;
   SaKnobs ak = knobs_alloc(plan); ak.backend = BE_DIRECT;
   std::string prop = g_run.prop;
+  bool loc = kn.getu("locale", 0) != 0 && comma_locale(true);
+  if (loc) stat_add("runs_under_comma_locale");
   // --- solo: each task alone, on the main thread, before any other thread exists
   std::vector<uint64_t> solo(n);
   g_task_mode = true;
@@ -58,7 +61,7 @@ void exec_tasks(const J& plan) {
     solo[i] = g_logs[0].digest;
     if (sa_live_count() != 0 && !failed()) fail("C17", "solo-task-leaves-memory", fmt("task %zu alone left %llu block(s)", i + 1, (unsigned long long)sa_live_count()));
   }
-  if (failed() || g_run.foreign_seen) { g_task_mode = false; if (prot) prot_lib_statics(false); return; }
+  if (failed() || g_run.foreign_seen) { g_task_mode = false; if (prot) prot_lib_statics(false); if (loc) comma_locale(false); return; }
   // --- interleaved
   sa_reset(ak); for (int li = 0; li <= SA_MAX_TASKS; li++) g_logs[li].reset();
   std::vector<std::function<void()>> bodies;
@@ -68,6 +71,7 @@ void exec_tasks(const J& plan) {
   prot_set_ctx("interleaved tasks (C17)");
   SchedResult sr = sched_run(cfg, bodies);
   if (prot) prot_lib_statics(false);
+  if (loc) comma_locale(false);
   g_task_mode = false;
   uint64_t combined = sr.schedule_hash;
   for (size_t i = 0; i < n && !failed(); i++) {
